@@ -3,9 +3,7 @@ package types
 import (
 	"bytes"
 	"fmt"
-	"io/ioutil"
 	"math/big"
-	"os"
 	"time"
 
 	errorsmod "cosmossdk.io/errors"
@@ -205,17 +203,9 @@ func verifyHeader(
 // in a batch of parents (ascending order) to avoid looking those up from the
 // database. This is useful for concurrently verifying a batch of new headers.
 func verifyCascadingFields(header Header) error {
-	cachedir, err := ioutil.TempDir("", "")
-	if err != nil {
-		fmt.Println(err)
-		return errEthashStopped
-	}
-	defer os.RemoveAll(cachedir)
-	config := Config{
-		CacheDir:     cachedir,
-		CachesOnDisk: 1,
-	}
-	ethash := New(config, nil, false)
+	// Keep the verification cache in memory only: whether a header is accepted
+	// must not depend on the node's file system (temp dir, disk space, permissions).
+	ethash := New(Config{}, nil, false)
 	defer ethash.Close()
 	if err := ethash.VerifySeal(header.ToVerifyHeader(), false); err != nil {
 		return ErrHeader
